@@ -202,6 +202,11 @@ class C16:
                     gf, gt = ph.get((u, v), (0, set()))
                     if nm == "to_directed":
                         exp = tu
+                        rf, rt = ph.get((v, u), (0, set()))
+                        if gt != exp and u != v and not gt and not gf and rt == exp and rf:
+                            # the pair is there, correctly, in the other orientation only
+                            fails.append(F("C16.to_directed_one_orientation", conv=nm, pair=[u, v], expected=sorted(exp), got=[]))
+                            continue
                     elif nm == "to_undirected":
                         exp = tu | tv
                     else:
